@@ -12,6 +12,14 @@ CHECKS = {
    note="Trusted: the checker's own registry loader (deep later-wins merge, v2 expansion) — C18's rules tie registry.py to it; ISO 3166 list from the installed pycountry database file; "
         "agreement with SWIFT / national sources is not decided.",
    design="3/C17"),
+ "C07": dict(
+   technique="MRO-resolved parameter extraction + finite-domain hook tables (abstract evaluation) compared with a Bundesbank reference table",
+   text="For all 39 registered German methods (and the 4 variants of 91) the effective modulus, positions, direction, weights, the summand table (digit x weight), "
+        "the remainder table and the remainder->check-digit mapping are computed from the source by the abstract evaluator and compared with an independently typed reference table; "
+        "every value that can reach the comparison with an account digit is shown to be one decimal digit; writer/reader dispatch keys and the JSON field name agree. "
+        "This covers the 21 methods without any test. It decides the parameters and hook tables, not the full behaviour of the special-case rules.",
+   note="Trusted: sv/tables/bundesbank.py (typed from the Bundesbank descriptions), the abstract evaluator's library model. Special rules of 13/63, 24, 25, 68, 76 beyond parameters are not decided.",
+   design="3/C07"),
 }
 NA_REASON = "check not built yet (work in progress; see DESIGN.md section 3 for the plan)"
 
